@@ -12,8 +12,8 @@ PROPS["C02"] = dict(
     rule="A case = (processor configuration, thread programs, exporter behaviour, schedule).",
     assumptions=SCHED_ASSUMPTIONS + [SC_NOTE],
     runs=[
-        run("bsp", "c02_sched", "bsp_sched", "rc", dict(procs=6, cases=12000), dict(procs=10, cases=250000), asan_extra=SCHED_ASAN),
-        run("blp", "c02_sched", "blp_sched", "rc", dict(procs=6, cases=12000), dict(procs=6, cases=250000), asan_extra=SCHED_ASAN),
+        run("bsp", "c02_sched", "bsp_sched", "rc", dict(procs=6, cases=30000), dict(procs=10, cases=250000), asan_extra=SCHED_ASAN),
+        run("blp", "c02_sched", "blp_sched", "rc", dict(procs=6, cases=30000), dict(procs=6, cases=250000), asan_extra=SCHED_ASAN),
         run("tracer-provider", "c02_provider", "tracer_provider", "rc", dict(procs=1, cases=3000), dict(procs=2, cases=15000)),
         run("logger-provider", "c02_provider", "logger_provider", "rc", dict(procs=1, cases=3000), dict(procs=2, cases=15000)),
         run("meter-provider", "c02_provider", "meter_provider", "rc", dict(procs=2, cases=2000), dict(procs=3, cases=12000), deterministic=False),
